@@ -49,12 +49,13 @@ def as_argument(vals, form):
 
 
 def plan(tier):
-    return {"cases": 3800 if tier == "quick" else 80000, "shards": 16, "case_timeout": 30, "shard_timeout": 3000,
+    return {"cases": 4400 if tier == "quick" else 80000, "shards": 16, "case_timeout": 30, "shard_timeout": 3000,
             "hashseeds": [0, 1, 2, 3], "min_nontrivial": 100,
             "min_counters": {"operations_applied": 8000, "content_checks": 8000, "relation_checks": 2500,
                              "tlist_operations": 1000, "tlist_negative_positions": 100,
                              "inverse_writes": 500, "rejected_assignments": 300, "extended_slice_assignments": 300,
-                             "extended_slice_assignments_of_no_position": 50, "symmetric_difference_writes": 300, "rejected_set_additions": 100}}
+                             "extended_slice_assignments_of_no_position": 50, "symmetric_difference_writes": 300, "rejected_set_additions": 100,
+                             "optional_managed_list_cases": 100, "none_assigned_to_an_optional_managed_list": 100}}
 
 
 def setup(ctx):
@@ -94,6 +95,13 @@ def gen(rng, tier, ctx):
         ops.append([op, vals, rng.randrange(8), rng.choice(ARG_FORMS)])
     # a second owner whose field is first written with the managed container of the first owner, before operation #at
     second = {"at": rng.randrange(len(ops) + 1), "form": rng.choice(["ctor", "replace", "assign"])} if rng.random() < 0.3 else None
+    if kind == "list" and rng.random() < 0.15:
+        # a managed list that may be missing (Optional[List[...]] = None): None is "no elements"
+        # (its descriptor has no inverse and infers nothing: the write forms themselves are what is observed)
+        ops = [(["assign_none", [], 0, "list"] if rng.random() < 0.2 or o[0] in ("inverse_write", "assign_rejected", "setitem_rejected") else o)
+               for o in ops]
+        return {"kind": kind, "n_other": n_other, "start": start, "start_form": rng.choice(["ctor", "assign", "append", "default", "ctor_none"]),
+                "ops": ops, "second_owner": None, "twins": False, "odd": False, "odd_cls": "Bag", "owner_cls": "Keeper"}
     return {"kind": kind, "n_other": n_other, "start": start, "start_form": rng.choice(["ctor", "assign", "append"]), "ops": ops,
             "second_owner": second,
             "twins": rng.random() < 0.3, "odd": rng.random() < 0.2, "odd_cls": rng.choice(["Bag", "Crate"]),
@@ -121,6 +129,8 @@ def witnesses():
                                                  "ops": [["append", [2], 0, "list"]]},
         "rejected-item-assignment-recorded": {"kind": "list", "n_other": 3, "start": [0], "start_form": "ctor",
                                               "ops": [["setitem_rejected", [1], 0, "list"], ["append", [2], 0, "list"], ["setitem_rejected", [1], 1, "list"]]},
+        "none-for-an-optional-managed-collection": {"kind": "list", "n_other": 3, "start": [], "start_form": "default", "owner_cls": "Keeper",
+                                                   "ops": [["append", [0], 0, "list"], ["assign_none", [], 0, "list"], ["extend", [1, 2], 0, "list"]]},
         "set-ior-erases-field": {"kind": "set", "n_other": 3, "start": [0], "start_form": "ctor", "ops": [["ior", [1], 0]]},
     }
 
@@ -301,12 +311,15 @@ def run(spec, ctx):
         C["odd_class:" + odd_cls.__name__] += odd
         others = [(om.VOrg(f"t{i % 2}") if twins else (odd_cls if odd else om.Org)(f"o{i}")) for i in range(spec["n_other"])]
         field, owner_name = "member_of", "p0"
+        if spec.get("owner_cls") == "Keeper":
+            field = "keeps"
+            C["optional_managed_list_cases"] += 1
     else:
         others = [(om.VPerson(f"t{i % 2}") if twins else om.Person(f"q{i}")) for i in range(spec["n_other"])]
         field, owner_name = "members", "o0"
     for i, o in enumerate(others):
         named[f"e{i}" if twins else o.name] = o
-    start = [others[i] for i in spec["start"]]
+    start = [others[i] for i in spec["start"]] if spec["start_form"] not in ("default", "ctor_none") else []
     model = list(start) if kind == "list" else set(start)
     ever = set(id(x) for x in model)
     mk = (lambda xs: list(xs)) if kind == "list" else (lambda xs: set(xs))
@@ -320,9 +333,13 @@ def run(spec, ctx):
     try:
         if spec["start_form"] == "ctor":
             owner = Owner(owner_name, **{field: mk(start)})
+        elif spec["start_form"] == "ctor_none":
+            owner = Owner(owner_name, **{field: None})
         else:
             owner = Owner(owner_name)
-            if spec["start_form"] == "assign":
+            if spec["start_form"] == "default":
+                pass
+            elif spec["start_form"] == "assign":
                 setattr(owner, field, mk(start))
             else:
                 for x in start:
@@ -348,6 +365,8 @@ def run(spec, ctx):
 
     def contents():
         v = getattr(owner, field)
+        if v is None:
+            return []          # a field that may be missing: None holds no elements
         return list(v) if kind == "list" else set(v)
 
     def check(label):
@@ -413,6 +432,11 @@ def run(spec, ctx):
                 setattr(owner, field, getattr(owner, field))
                 model = with_inferred(model)
                 vals = []
+            elif op == "assign_none":
+                setattr(owner, field, None)
+                model = with_inferred(mk([]))
+                vals = []
+                C["none_assigned_to_an_optional_managed_list"] += 1
             elif op == "iadd":
                 tmp = getattr(owner, field)
                 tmp += as_argument(vals, form)
@@ -646,7 +670,7 @@ def run(spec, ctx):
         # inverse fields of the current elements
         cur = {name_of[id(x)] for x in model}
         inv = "members" if kind == "list" else "member_of"
-        for n in cur:
+        for n in (cur if field != "keeps" else ()):         # (Keeps has no inverse)
             if (n, inv, owner_name) not in fields:
                 problems.append(f"{n}.{inv} lacks {owner_name} although {n} is in {owner_name}.{field}")
                 if any(k in ("iadd", "ior", "setslice") for k in kinds_seen):
